@@ -122,8 +122,10 @@ Clauses2(c) ==
                                       [k \in DOMAIN c.obs2.subs |-> <<c.obs2.subs[k].k, c.obs2.subs[k].vec, c.obs2.subs[k].readouts>>])
         ELSE {})
   \* ---- C15: views recorded by the harness from the result objects
-  \cup (IF xs /\ ok THEN
-          F("as_str", \E j \in DOMAIN o.readouts : o.readouts[j].str # BitsOf(o.readouts[j].value, NQ(c)))
+  \cup (IF (xs \/ c.site = "rerun") /\ ok THEN
+          F("freq_counts", \E k \in DOMAIN o.subs : \E v \in 0..(2 ^ NQ(c) - 1) :
+                              o.subs[k].freq[v + 1] # Count(o.subs[k].readouts, v))
+          \cup F("as_str", \E j \in DOMAIN o.readouts : o.readouts[j].str # BitsOf(o.readouts[j].value, NQ(c)))
           \cup F("by_str_order", \E k \in DOMAIN o.subs :
                    o.subs[k].str_keys # [v \in 1..(2 ^ NQ(c)) |-> BitsOf(v - 1, NQ(c))])
           \cup F("views_agree", \E k \in DOMAIN o.subs : ~o.subs[k].views_agree)
